@@ -10,11 +10,11 @@ import (
 
 // VerifH_C15_Metadata: metadata is stored byte exact, announced by the flags, readable by chunk id,
 // and does not change the embedded bitstream / alpha payload nor what the codecs are asked to encode.
-//   mode 0 lossy opaque, 1 lossy with alpha, 2 lossless; meta mask ICC|EXIF<<1|XMP<<2, mlen bytes each.
+//   mode 0 lossy opaque, 1 lossy with alpha, 2 lossless opaque, 3 lossless with alpha; meta mask ICC|EXIF<<1|XMP<<2, mlen bytes each.
 func VerifH_C15_Metadata(mode, w, h, meta, mlen int) {
 	vGlueInit()
 	am := 0
-	if mode == 1 {
+	if mode == 1 || mode == 3 {
 		am = 1
 	}
 	img := vSymImage(w, h, am)
@@ -22,7 +22,7 @@ func VerifH_C15_Metadata(mode, w, h, meta, mlen int) {
 		verifapi.Assume(img.Pix[3] != 255) // at least one non-opaque pixel
 	}
 	base := DefaultOptions()
-	base.Lossless = mode == 2
+	base.Lossless = mode >= 2
 	with := *base
 	if meta&1 != 0 {
 		with.ICC = verifapi.Bytes("icc", mlen)
